@@ -2,6 +2,7 @@ package c18
 
 import (
 	"bytes"
+	"errors"
 	"io"
 	"net"
 	"runtime"
@@ -42,6 +43,22 @@ type half struct {
 	yieldEvery uint32
 	nread      int64
 	nreads     int64
+	// fault injection (mconn "cut" cases): after failAt bytes were read from this half the
+	// whole pipe fails like a reset connection: both directions return errReset from then on
+	failAt int64
+	broken *int32
+	peer   *half
+	prog   *int64 // bytes moved through the pipe (both directions): the progress signal of the stall watchdog
+}
+
+var errReset = errors.New("c18pipe: connection reset by harness")
+
+func (h *half) isBroken() bool { return atomic.LoadInt32(h.broken) == 1 }
+
+func (h *half) wake() {
+	h.mu.Lock()
+	h.cond.Broadcast()
+	h.mu.Unlock()
 }
 
 func newHalf(r *rng.R) *half {
@@ -87,6 +104,9 @@ func (h *half) write(p []byte) (int, error) {
 	defer h.wmu.Unlock()
 	h.mu.Lock()
 	defer h.mu.Unlock()
+	if h.isBroken() {
+		return 0, errReset
+	}
 	if h.wclosed || h.rclosed {
 		return 0, io.ErrClosedPipe
 	}
@@ -99,19 +119,25 @@ func (h *half) write(p []byte) (int, error) {
 	if h.syncMode {
 		h.buf.Write(p)
 		h.cond.Broadcast()
-		for h.buf.Len() > 0 && !h.rclosed && !h.wclosed {
+		for h.buf.Len() > 0 && !h.rclosed && !h.wclosed && !h.isBroken() {
 			h.cond.Wait()
 		}
 		if rem := h.buf.Len(); rem > 0 {
 			h.buf.Reset()
+			if h.isBroken() {
+				return len(p) - rem, errReset
+			}
 			return len(p) - rem, io.ErrClosedPipe
 		}
 		return len(p), nil
 	}
 	n := 0
 	for n < len(p) {
-		for h.buf.Len() >= h.capac && !h.rclosed && !h.wclosed {
+		for h.buf.Len() >= h.capac && !h.rclosed && !h.wclosed && !h.isBroken() {
 			h.cond.Wait()
+		}
+		if h.isBroken() {
+			return n, errReset
 		}
 		if h.rclosed || h.wclosed {
 			return n, io.ErrClosedPipe
@@ -134,19 +160,31 @@ func (h *half) write(p []byte) (int, error) {
 
 func (h *half) read(p []byte) (int, error) {
 	h.maybeYield()
+	n, err, broke := h.read1(p)
+	if broke {
+		// wake whoever waits on the other direction (outside our own lock)
+		h.peer.wake()
+	}
+	return n, err
+}
+
+func (h *half) read1(p []byte) (n int, err error, broke bool) {
 	h.mu.Lock()
 	defer h.mu.Unlock()
-	for h.buf.Len() == 0 && !h.wclosed && !h.rclosed {
+	for h.buf.Len() == 0 && !h.wclosed && !h.rclosed && !h.isBroken() {
 		h.cond.Wait()
 	}
+	if h.isBroken() {
+		return 0, errReset, false
+	}
 	if h.rclosed {
-		return 0, io.ErrClosedPipe
+		return 0, io.ErrClosedPipe, false
 	}
 	if h.buf.Len() == 0 {
-		return 0, io.EOF
+		return 0, io.EOF, false
 	}
 	if len(p) == 0 {
-		return 0, nil
+		return 0, nil, false
 	}
 	k := len(p)
 	if k > h.buf.Len() {
@@ -157,11 +195,22 @@ func (h *half) read(p []byte) (int, error) {
 			k = m
 		}
 	}
-	n, _ := h.buf.Read(p[:k])
+	if h.failAt > 0 {
+		if rem := h.failAt - h.nread; int64(k) > rem {
+			k = int(rem)
+		}
+	}
+	n, _ = h.buf.Read(p[:k])
 	h.nread += int64(n)
 	h.nreads++
+	atomic.AddInt64(h.prog, int64(n))
+	if h.failAt > 0 && h.nread >= h.failAt {
+		atomic.StoreInt32(h.broken, 1)
+		h.buf.Reset()
+		broke = true
+	}
 	h.cond.Broadcast()
-	return n, nil
+	return n, nil, broke
 }
 
 func (h *half) closeWrite() {
@@ -191,6 +240,11 @@ type pconn struct {
 
 func newPipe(r *rng.R) (*pconn, *pconn) {
 	ab, ba := newHalf(r.Split()), newHalf(r.Split())
+	ab.broken = new(int32)
+	ba.broken = ab.broken
+	ab.prog = new(int64)
+	ba.prog = ab.prog
+	ab.peer, ba.peer = ba, ab
 	return &pconn{in: ba, out: ab}, &pconn{in: ab, out: ba}
 }
 
